@@ -13,6 +13,7 @@ from ..program import AnalysisError, ClassInfo, FunctionInfo, fn_nodes, norm
 from ..cfg import cfg_of
 from ..fold import Inst, is_unknown
 from ..spec import tables as T
+from .common import inconclusive_on_error as _ioe
 from .common import can_reach_exit, const_value, is_const, names_in, scope_of, succ_by_label
 
 KEY_CLASSES = {"OctKey": "rfc7518.oct_key:OctKey", "RSAKey": "rfc7518.rsa_key:RSAKey", "ECKey": "rfc7518.ec_key:ECKey",
@@ -50,6 +51,7 @@ def r12_1(ctx) -> None:
               "= {d,p,q,dp,dq,qi,oth,k}", construct="private member set")
 
 
+@_ioe
 def _as_dict_folded(ctx, fn) -> Optional[List[str]]:
     """Fold BaseKey.as_dict on probe keys (an oct key, a private and a public RSA key; private None / True / False; with and without extra params,
     one of which carries the name of a private member): the result is a new dict holding the key's members - without those the class's
@@ -527,7 +529,37 @@ def r12_13(ctx) -> None:
     ctx.count("R12.13", n, 3, "assignments of the key state fields in BaseKey.__init__")
 
 
+def r12_15(ctx) -> None:
+    """R12.15  the private / public choice of an export is made in ONE place per exporter: no key class overrides as_dict, as_bytes, as_pem, as_der
+    or the binding's as_bytes (an override is a second selector that R12.2 / R12.7 do not decide - `private is True or password is not None`
+    hands out the private key to a caller who asked for the public one and also gave a password)."""
+    eng = ctx.eng
+    P = eng.prog
+    bk = P.cls("rfc7517.models:BaseKey")
+    n = 0
+    ak = P.cls("rfc7517.models:AsymmetricKey")
+    for meth in ("as_dict", "as_bytes", "as_pem", "as_der"):
+        owner = bk if meth == "as_dict" else ak
+        base = owner.methods.get(meth)
+        if base is None:
+            raise AnalysisError(f"{owner.name}.{meth} vanished")
+        n += 1
+        over = [f for f in P.implementations(owner, meth) if f is not base]
+        ctx.check(not over, "R12.15", over[0] if over else base, (over[0] if over else base).node, f"BaseKey.{meth} :: single implementation",
+                  f"{over[0].short if over else ''} overrides {meth}: the private / public selection of the base class is bypassed", "one implementation", construct=f"override of {meth}")
+    cb = P.cls("rfc7517.pem:CryptographyBinding")
+    base = cb.methods.get("as_bytes")
+    if base is not None:
+        n += 1
+        over = [f for f in P.implementations(cb, "as_bytes") if f is not base]
+        ctx.check(not over, "R12.15", over[0] if over else base, (over[0] if over else base).node, "CryptographyBinding.as_bytes :: single implementation",
+                  f"{over[0].short if over else ''} overrides the binding's as_bytes: its own private / public selector is not the one R12.7 decides", "one implementation",
+                  construct="override of binding as_bytes")
+    ctx.count("R12.15", n, 5, "exporters with a single implementation")
+
+
 def run(ctx) -> None:
+    ctx.guard(r12_15)
     from .common import forwarding_discipline
     ctx.guard(forwarding_discipline, "R12.12", ['private', 'password', 'encoding', 'params'], 21)  # arguments are handed on under their own name (generic routing rule, rules/common.py)
     ctx.guard(r12_11)
